@@ -543,7 +543,12 @@ func (g *docgen) matrix() *dv {
 		adjs := dList()
 		for k := g.rng.Intn(3); k > 0; k-- {
 			a := dMap()
-			if named {
+			if g.rng.Chance(10) {
+				// an adjustment without a "with" (nil map), or with an empty one
+				if g.rng.Chance(40) {
+					a.set("with", dMap())
+				}
+			} else if named {
 				w := dMap()
 				for j := 1 + g.rng.Intn(2); j > 0; j-- {
 					w.set(fmt.Sprint("dim", j), sx.Pick(g.rng, []*dv{dStr("v"), dInt(7), dBool(true), g.str()}))
